@@ -46,6 +46,8 @@ def mk(kind, kids):
         o = T.DCN(kids[0])
         o.b = kids[1]
         return o
+    if kind == "dcd":
+        return T.DCD(kids[0])
     if kind == "fdcn":
         o = T.FDCN(kids[0])
         object.__setattr__(o, "b", kids[1])
@@ -54,7 +56,7 @@ def mk(kind, kids):
 
 
 ARITY = {"list": (0, 1, 2), "tuple": (0, 1, 2), "nt": (2,), "set": (0, 1, 2), "dictv": (0, 1, 2), "dictk": (1, 2), "dc": (2,), "fdc": (2,),
-         "dcn": (2,), "fdcn": (2,)}
+         "dcn": (2,), "fdcn": (2,), "dcd": (1,)}
 
 
 def hashable(v):
